@@ -152,6 +152,8 @@ class _VersionIndependentUnmarshaller:
 
         self.bytes_for_s = bytes_for_s
         version = magic_int2tuple(self.magic_int)
+        # Python 3 has a single integer type; only Python 2 bytecode has longs.
+        self.python2_bytecode = version < (3, 0)
         if version >= (3, 4):
             if self.magic_int in (3250, 3260, 3270):
                 self.marshal_version = 3
@@ -280,6 +282,10 @@ class _VersionIndependentUnmarshaller:
             d = long(d)
         if n < 0:
             d = long(d * -1)
+
+        if not self.python2_bytecode:
+            # Don't show this with a Python 2 "L" suffix.
+            d = int(d)
 
         return self.r_ref(d, save_ref)
 
